@@ -341,12 +341,13 @@ Proof.
   rewrite (F1 (fun c => c =? 45)), (F2 is_xdigit), E by lia. reflexivity.
 Qed.
 
-(* the 38-byte form: whatever stands in the place of the braces is accepted *)
-Lemma uuid_braces_unchecked_l u b1 b2 :
-  length u = 36%nat -> accept_uuid (b1 :: u ++ [b2]) = accept_uuid u.
+(* the 38-byte form: the first and last byte must be the braces *)
+Lemma uuid_braces_l u b1 b2 :
+  length u = 36%nat -> accept_uuid (b1 :: u ++ [b2]) = (b1 =? 123) && (b2 =? 125) && accept_uuid u.
 Proof.
   intros Hl. unfold accept_uuid. cbn [length]. rewrite app_length, Hl. cbn [length Nat.add Nat.eqb skipn].
-  apply uuid36_body_app, Hl.
+  rewrite (uuid36_body_app u [b2] Hl). unfold byte_at at 1 2. cbn [nth].
+  rewrite app_nth2 by lia. rewrite Hl. cbn [Nat.sub nth]. reflexivity.
 Qed.
 
 (* every string of the generator's domain is accepted, in each of the four forms *)
@@ -368,7 +369,7 @@ Lemma uuid_generated_l s :
 Proof.
   intros Hs. pose proof (uuid36_shape_body _ Hs) as Hb. destruct Hs as (Hl & _).
   assert (H0 : accept_uuid s = true) by (unfold accept_uuid; rewrite Hl; exact Hb).
-  split; [exact H0|]. split; [rewrite uuid_braces_unchecked_l by exact Hl; exact H0|].
+  split; [exact H0|]. split; [rewrite uuid_braces_l by exact Hl; rewrite H0; reflexivity|].
   intros p Hp Hu. unfold accept_uuid. rewrite app_length, Hp, Hl. cbn [Nat.add Nat.eqb].
   rewrite <- Hp at 1. rewrite firstn_app, firstn_all, Nat.sub_diag. cbn [firstn]. rewrite app_nil_r, Hu.
   rewrite <- Hp. rewrite skipn_app, skipn_all, Nat.sub_diag. cbn [skipn app].
@@ -401,14 +402,12 @@ Lemma hostname_generated_refuted_l :
   exists l1 l2, label_ok l1 = true /\ label_ok l2 = true /\ accept_hostname (join_dots [l1; l2]) = false.
 Proof. exists [97], [98; 57]. repeat split; vm_compute; reflexivity. Qed.
 
-(* X6ba7b810-9dad-11d1-80b4-00c04fd430c8Y *)
-Lemma uuid_brace_refuted_l :
-  exists u b1 b2, length u = 36%nat /\ accept_uuid u = true /\ b1 <> 123 /\ b2 <> 125 /\
-    accept_uuid (b1 :: u ++ [b2]) = true.
+(* a brace replaced by anything else: X6ba7b810-9dad-11d1-80b4-00c04fd430c8Y *)
+Lemma uuid_brace_corruption_l u b1 b2 :
+  length u = 36%nat -> b1 <> 123 \/ b2 <> 125 -> accept_uuid (b1 :: u ++ [b2]) = false.
 Proof.
-  exists [54;98;97;55;98;56;49;48;45;57;100;97;100;45;49;49;100;49;45;56;48;98;52;45;48;48;99;48;52;102;100;52;51;48;99;56], 88, 89.
-  split; [reflexivity|]. split; [vm_compute; reflexivity|]. split; [discriminate|]. split; [discriminate|].
-  vm_compute; reflexivity.
+  intros Hl H. rewrite uuid_braces_l by exact Hl.
+  destruct H as [H|H]; apply N.eqb_neq in H; rewrite H; [reflexivity|rewrite andb_false_r; reflexivity].
 Qed.
 
 Lemma uuid_brace_form_inner_l u i b b1 b2 :
@@ -416,8 +415,8 @@ Lemma uuid_brace_form_inner_l u i b b1 b2 :
   (In i uuid_hex_pos /\ is_xdigit b = false) \/ (In i uuid_dash_pos /\ b <> 45) ->
   accept_uuid (b1 :: set_at i b u ++ [b2]) = false.
 Proof.
-  intros Hl H. rewrite uuid_braces_unchecked_l by (rewrite set_at_length; exact Hl).
-  destruct H as [[Hi Hb]|[Hi Hb]]; [now apply uuid_nonhex_l|now apply uuid_bad_dash_l].
+  intros Hl H. rewrite uuid_braces_l by (rewrite set_at_length; exact Hl).
+  destruct H as [[Hi Hb]|[Hi Hb]]; [rewrite uuid_nonhex_l|rewrite uuid_bad_dash_l]; auto using andb_false_r.
 Qed.
 
 Lemma hostname_partial_l s : starts_ok s = false -> ends_alpha s = false -> accept_hostname s = false.
